@@ -88,3 +88,57 @@ contract("codemodder.dependency_management.dependency_manager.DependencyManager.
          ensures=[("dry-run writes nothing", "implies(dry_run, fs == old(fs))"),
                   ("only the store's own manifest can change", "fs == store(old(fs), Path(self.dependencies_store.file), fs[Path(self.dependencies_store.file)])"),
                   ("no changeset => nothing written", "implies(result is None, fs == old(fs))")])
+
+# ---- the other three manifest writers: verified against the dynamic-dispatch clauses (dry-run, single file, None => untouched) ---
+import configparser as _cp
+import tomlkit as _tk
+import copy as _copy
+import libcst as _cst2
+REG.exceptions.update({"ParsingError": "configparser.ParsingError", "NonExistentKey": "tomlkit.exceptions.NonExistentKey"})
+external("configparser.ConfigParser", params=None, returns="Opaque", note="configparser object")
+external("opaque.read", params=None, returns="Opaque", exsures=[("ParsingError", None)], note="ConfigParser.read: reads the file; may raise ParsingError")
+external("opaque.get", params=None, returns="Opaque", pure=True, note="mapping .get(): pure lookup")
+external("codemodder.dependency_management.setupcfg_writer.SetupCfgWriter.build_new_lines", functional=True, reads=["requirement"],
+         params={"self": "SetupCfgWriter", "original_lines": "list[str]", "defined_dependencies": "Opaque", "dependencies_to_add": "list[Dependency]"},
+         returns="list[str] | None", note="setup.cfg line surgery (string processing): used as a function of its arguments; out of the solver's reach")
+external("codemodder.diff.create_diff_and_linenums", params={"original_lines": "list[str]", "new_lines": "list[str]"}, returns="tuple[str, list[int]]", pure=True,
+         ensures=["result[0] == lines_diff(original_lines, new_lines)"], note="diff text as create_diff; changed line numbers parsed from the hunks")
+external("codemodder.dependency_management.base_dependency_writer.DependencyWriter.build_changes", functional=True, reads=["requirement", "description"],
+         params={"self": _DW, "dependencies": "list[Dependency]", "line_number_strategy": "Opaque", "strategy_arg": "Opaque"},
+         returns="list[Change]", raises_any=True, note="one Change per dependency; may raise (line-number strategy indexing, Change validation)")
+contract("codemodder.dependency_management.setupcfg_writer.SetupCfgWriter.add_to_file", props=["C04", "C14", "C03"],
+         params={"self": "SetupCfgWriter", "dependencies": "list[Dependency]", "dry_run": "bool"}, returns="ChangeSet | None",
+         modifies=["ghost:fs"], raises_any=True,
+         ensures=DYN_ADD_ENSURES + [
+             ("what is written is exactly the line list the diff was computed against",
+              "implies(result is not None and not dry_run, any(fs[self.path] == utf8(''.join(u)) and result.diff == lines_diff(o, u) for o in ANY('list[str]') for u in ANY('list[str]')))")])
+
+external("tomlkit.api.load", params=None, returns="Opaque", raises_any=True, note="tomlkit.load(file): parsed document")
+external("tomlkit.api.dumps", params={"data": "Opaque", "sort_keys": "bool"}, returns="str", pure=True, note="tomlkit.dumps: rendering of a document")
+external("copy.deepcopy", params={"x": "Opaque", "memo": "Opaque", "_nil": "Opaque"}, returns="Opaque", pure=True)
+external("opaque.extend", params=None, raises_any=True, note="tomlkit array extend (in-memory document edit)")
+external("opaque.update", params=None, raises_any=True)
+external("opaque.add", params=None, raises_any=True)
+external("tomlkit.api.nl", params=None, returns="Opaque")
+external("codemodder.dependency_management.pyproject_writer.PyprojectWriter._update_poetry", params={"self": "PyprojectWriter", "pyproject": "Opaque", "dependencies": "list[Dependency]"},
+         returns="list[Dependency]", raises_any=True, note="in-memory edit of the tomlkit document (no I/O); returns the dependencies it added")
+contract("codemodder.dependency_management.pyproject_writer.PyprojectWriter.add_to_file", props=["C04", "C14", "C03"],
+         params={"self": "PyprojectWriter", "dependencies": "list[Dependency]", "dry_run": "bool"}, returns="ChangeSet | None",
+         modifies=["ghost:fs"], raises_any=True,
+         ensures=DYN_ADD_ENSURES + [
+             ("what is written is the rendering of the very document whose rendering the diff was computed against",
+              "implies(result is not None and not dry_run, any(fs[self.path] == utf8(tomlkit.dumps(d)) and"
+              " any(result.diff == lines_diff(o, tomlkit.dumps(d).split('\\n')) for o in ANY('list[str]')) for d in ANY('Opaque')))")])
+
+external("libcst.metadata.wrapper.MetadataWrapper", params=None, returns="Opaque")
+external("libcst.codemod._context.CodemodContext", params=None, returns="Opaque")
+external("codemodder.dependency_management.setup_py_writer.SetupPyAddDependencies", params=None, returns="Opaque", raises_any=True,
+         note="the libcst codemod that edits install_requires (tree edit only; no I/O)")
+external("opaque.transform_module", params=None, returns="Opaque", raises_any=True, note="libcst transform of setup.py (tree edit only)")
+REG.opaque_attrs.update({"line_num_changed": "int | None"})
+contract("codemodder.dependency_management.setup_py_writer.SetupPyWriter.add_to_file", props=["C04", "C14", "C03"],
+         params={"self": "SetupPyWriter", "dependencies": "list[Dependency]", "dry_run": "bool"}, returns="ChangeSet | None",
+         modifies=["ghost:fs"], raises_any=True,
+         ensures=DYN_ADD_ENSURES + [
+             ("the diff is between the parsed input and the very tree whose code is written",
+              "implies(result is not None and not dry_run, any(fs[self.path] == utf8(t.code) and result.diff == text_diff(decode_utf8(old(fs)[self.path]), t.code) for t in ANY('Opaque')))")])
